@@ -14,10 +14,14 @@ package interp
 
 import (
 	"bytes"
+	"fmt"
 	"go/ast"
 	"go/token"
+	"io"
 	"reflect"
 	"sort"
+
+	"github.com/traefik/yaegi/stdlib"
 )
 
 var vhProgIdx = 0
@@ -70,6 +74,46 @@ func vhFullInterp(out *bytes.Buffer) *Interpreter {
 	return i
 }
 
+// vhHost is package host: the inputs, and functions recording what the program hands them.
+// The interface-typed ones call the methods of the value they receive: for an interpreted
+// value these are interpreted methods behind a generated wrapper.
+func vhHost(rec *[]int, a, b int) map[string]interface{} {
+	out := func(v int) { *rec = append(*rec, v) }
+	return map[string]interface{}{
+		"A":   func() int { return a },
+		"B":   func() int { return b },
+		"Out": out,
+		"Str": func(s fmt.Stringer) { out(len(s.String())) },
+		"Err": func(e error) { out(len(e.Error())) },
+		"Sort": func(x sort.Interface) {
+			// one bubble pass: Len, Less and Swap of the value
+			n := x.Len()
+			out(n)
+			for k := 1; k < n; k++ {
+				if x.Less(k, k-1) {
+					x.Swap(k, k-1)
+				}
+			}
+		},
+		"Read": func(r io.Reader) {
+			buf := make([]byte, 4)
+			n, err := r.Read(buf)
+			out(n)
+			out(int(buf[0]))
+			if err != nil {
+				out(-1)
+			}
+		},
+		"Write": func(w io.Writer) {
+			n, err := w.Write([]byte{1, 2, 3})
+			out(n)
+			if err != nil {
+				out(-1)
+			}
+		},
+	}
+}
+
 func vh_E2E() {
 	vhResetClock()
 	vhStopAt = -1
@@ -79,12 +123,21 @@ func vh_E2E() {
 	var got, want []int
 	var buf bytes.Buffer
 	i := vhFullInterp(&buf)
-	i.binPkg["host"] = map[string]reflect.Value{
-		"A":   reflect.ValueOf(func() int { return a }),
-		"B":   reflect.ValueOf(func() int { return b }),
-		"Out": reflect.ValueOf(func(v int) { got = append(got, v) }),
+	hostTab := map[string]reflect.Value{}
+	for k, fn := range vhHost(&got, a, b) {
+		hostTab[k] = reflect.ValueOf(fn)
 	}
+	i.binPkg["host"] = hostTab
 	i.pkgNames["host"] = "host"
+	// the wrappers compiled code needs to call interpreted methods (fmt.Stringer, ...): those of the default table
+	for _, pk := range []string{"fmt", "io", "sort"} {
+		tab := map[string]reflect.Value{}
+		for k, v := range stdlib.Symbols[pk+"/"+pk] {
+			tab[k] = v
+		}
+		i.binPkg[pk] = tab
+		i.pkgNames[pk] = pk
+	}
 	vReach("E2E")
 	_, err := i.Eval(vhPrograms[name])
 	if ce, ok := err.(*cfgError); ok {
@@ -100,7 +153,7 @@ func vh_E2E() {
 				twinPanicked = true
 			}
 		}()
-		vhTwinBind[name](func() int { return a }, func() int { return b }, func(v int) { want = append(want, v) })
+		vhTwinBind[name](vhHost(&want, a, b))
 		vhTwinMain[name]()
 	}()
 	// a program recorded as a known finding (known_findings.json) is reported as such: the
